@@ -287,6 +287,8 @@ pub fn check_cli(case: &Case, w: usize) -> CheckResult {
             Behavior {
                 out: case.streams[2 * i].clone(),
                 err: case.streams[2 * i + 1].clone(),
+                // a quarter of the tasks leave a silent background process holding the pipes
+                linger_ms: if (case.rng_seed >> (2 * i)) & 3 == 0 { 250 + (case.rng_seed >> 20) % 1100 } else { 0 },
                 ..Default::default()
             },
         );
